@@ -198,6 +198,21 @@ def long_case(f: int, k: int) -> bool:
     return True
 
 
+def targets_case(fi: int, ti: int) -> bool:
+    """Assignment/update/loop forms with targets that are not references, also behind nested groups: never a host exception."""
+    from . import C13
+    forms = C13.TARGET_FORMS + ["x = ((%s) = 2);", "[(%s) = 1];", "y = [[0], (%s)++];", "f(((%s)) -= 1);", "((%s) = 1, 2);", "z = ((%s));"]
+    form = pick(fi, forms)
+    tgt = pick(ti, C13.LEAF_TARGETS + C13.REF_TARGETS)
+    with NoTracing():
+        src = "var a = {b: {c: 1}}, b = 0, c = 'c', f = function () { return {x: 1}; }, F = f, o = {}; " + (form % tgt)
+        r = classify(src, lambda: run_script(src))
+        cover("judged")
+        if r is not None:
+            return "%s -> %s" % (src, r)
+    return True
+
+
 def pick_range(i, n):
     pre(0 <= i < n)
     lo, hi = 0, n
@@ -342,6 +357,9 @@ def harnesses():
                       bounds=["%d literal/nesting forms (escapes, number bases, operator chains, brackets, calls, regex groups ...) repeated "
                               "n times, n in %s, through Context.eval (nesting beyond the host stack must be JSSyntaxError/MemoryLimitError)"
                               % (len(LONG_FORMS), LONG_N)]))
+    hs.append(Harness(id="C04.targets", fn=targets_case, group="front", functions=FNS, per_path=60, budget=600, require=("judged",),
+                      bounds=["21 assignment/update/loop statement forms (incl. targets behind nested groups and arrays) x 35 reference and "
+                              "non-reference target expressions: a value, JSSyntaxError or runtime JSError"]))
     for i, form in enumerate(OPERATOR_FORMS):
         hs.append(Harness(id="C04.operator.%02d" % i, fn=make_operator(form), group="api.operator", functions=FNS, per_path=120, budget=600,
                           require=("judged",), bounds=["%r with both operands from the adversarial grid" % form]))
